@@ -115,6 +115,11 @@ func tagToField(input reflect.Value, tagType TagType) map[string]reflect.Value {
 			names = append(names, multirefs...)
 
 			for _, name := range names {
+				if name == "" {
+					// No multiref tag is set (or it has an empty
+					// element) - the empty string is not a key.
+					continue
+				}
 				ttf[name] = field
 			}
 		case Doc:
